@@ -349,12 +349,45 @@ theorem advLlgr_iff (v : List Cap) (f : Family) :
   · rintro ⟨lf, hc, x, hx, rfl⟩
     exact ⟨(x.1, x.2.2), (mem_llgrTuples v _).mpr ⟨lf, hc, x, hx, rfl⟩, rfl⟩
 
-/-- what `negotiate_llgr` puts into force -/
+theorem mem_firstTuples (e : Family × Nat × Nat) : ∀ (l : List (Family × Nat × Nat)) (seen : List Family),
+    e ∈ firstTuples l seen ↔ (e.1 ∉ seen ∧ l.find? (fun x => x.1 = e.1) = some e)
+  | [], seen => by simp [firstTuples]
+  | a :: t, seen => by
+    simp only [firstTuples, List.find?_cons]
+    by_cases hs : seen.contains a.1 = true
+    · simp only [hs, if_true, mem_firstTuples e t seen]
+      have hs' : a.1 ∈ seen := by simpa using hs
+      constructor
+      · rintro ⟨h1, h2⟩
+        have : a.1 ≠ e.1 := fun h => h1 (h ▸ hs')
+        simp [this, h1, h2]
+      · rintro ⟨h1, h2⟩
+        have : a.1 ≠ e.1 := fun h => h1 (h ▸ hs')
+        simp only [this, decide_false] at h2
+        exact ⟨h1, h2⟩
+    · have hs' : a.1 ∉ seen := by simpa using hs
+      simp only [hs, Bool.false_eq_true, if_false, List.mem_cons, mem_firstTuples e t (a.1 :: seen), not_or]
+      by_cases ha : a.1 = e.1
+      · simp only [ha, decide_true, Option.some.injEq]
+        constructor
+        · rintro (h | ⟨⟨h, _⟩, _⟩)
+          · subst h; exact ⟨hs', rfl⟩
+          · exact absurd trivial h
+        · rintro ⟨_, h⟩; left; exact h.symm
+      · simp only [ha, decide_false]
+        constructor
+        · rintro (h | ⟨⟨_, h1⟩, h2⟩)
+          · subst h; exact absurd rfl ha
+          · exact ⟨h1, h2⟩
+        · rintro ⟨h1, h2⟩; right; exact ⟨⟨fun h => ha h.symm, h1⟩, h2⟩
+
+/-- what `negotiate_llgr` puts into force: the family is listed by both sides and the stale time
+    taken from the first tuple of each side (the peer's, or ours when the peer's is zero) is non-zero -/
 theorem mem_llgrFams (l r : List Cap) (f : Family) :
     f ∈ Spec.llgrFams (negotiateLlgr l r) ↔
       ∃ lf pf, firstLlgr l = some lf ∧ firstLlgr r = some pf ∧
-        ∃ e ∈ lf, ∃ p, pf.find? (fun p => p.1 = e.1) = some p ∧
-          (if p.2.2 > 0 then p.2.2 else e.2.2) ≠ 0 ∧ p.1 = f := by
+        ∃ e p, lf.find? (fun x => x.1 = f) = some e ∧ pf.find? (fun x => x.1 = f) = some p ∧
+          (if p.2.2 > 0 then p.2.2 else e.2.2) ≠ 0 := by
   unfold negotiateLlgr
   cases hl : firstLlgr l with
   | none => simp [Spec.llgrFams]
@@ -363,24 +396,30 @@ theorem mem_llgrFams (l r : List Cap) (f : Family) :
     | none => simp [Spec.llgrFams]
     | some pf =>
       simp only
-      have key : ∀ x, x ∈ (lf.filterMap (llgrEntry pf)).map (·.1) ↔
-          ∃ e ∈ lf, ∃ p, pf.find? (fun p => p.1 = e.1) = some p ∧
-            (if p.2.2 > 0 then p.2.2 else e.2.2) ≠ 0 ∧ p.1 = x := by
+      have key : ∀ x, x ∈ ((firstTuples lf []).filterMap (llgrEntry pf)).map (·.1) ↔
+          ∃ e p, lf.find? (fun y => y.1 = x) = some e ∧ pf.find? (fun y => y.1 = x) = some p ∧
+            (if p.2.2 > 0 then p.2.2 else e.2.2) ≠ 0 := by
         intro x
         simp only [List.mem_map, List.mem_filterMap, llgrEntry]
         constructor
         · rintro ⟨y, ⟨e, he, hy⟩, rfl⟩
+          have hfe := ((mem_firstTuples e lf []).mp he).2
           cases hf : pf.find? (fun p => p.1 = e.1) with
           | none => simp [hf] at hy
           | some p =>
             simp only [hf] at hy
+            have hpe : p.1 = e.1 := by simpa using List.find?_some hf
             by_cases hz : (if p.2.2 > 0 then p.2.2 else e.2.2) = 0
             · simp [hz] at hy
             · simp only [hz, if_false, Option.some.injEq] at hy
               subst hy
-              exact ⟨e, he, p, hf, hz, rfl⟩
-        · rintro ⟨e, he, p, hf, hne, rfl⟩
-          refine ⟨(p.1, if p.2.2 > 0 then p.2.2 else e.2.2), ⟨e, he, ?_⟩, rfl⟩
+              simp only [hpe]
+              exact ⟨e, p, hfe, hf, hz⟩
+        · rintro ⟨e, p, hfe, hf, hne⟩
+          have hex : e.1 = x := by simpa using List.find?_some hfe
+          subst hex
+          have hpe : p.1 = e.1 := by simpa using List.find?_some hf
+          refine ⟨(p.1, if p.2.2 > 0 then p.2.2 else e.2.2), ⟨e, (mem_firstTuples e lf []).mpr ⟨by simp, hfe⟩, ?_⟩, hpe⟩
           simp only [hf]; simp [hne]
       split
       · rename_i hemp
@@ -398,11 +437,10 @@ theorem mem_llgrFams (l r : List Cap) (f : Family) :
 theorem llgr_without_both (l r : List Cap) :
     (Spec.llgrFams (negotiateLlgr l r)).all (fun f => Spec.advLlgr l f && Spec.advLlgr r f) = true := by
   rw [List.all_eq_true]; intro f hf
-  obtain ⟨lf, pf, h1, h2, e, he, p, hfind, _, hpf⟩ := (mem_llgrFams l r f).mp hf
+  obtain ⟨lf, pf, h1, h2, e, p, hfe, hfp, _⟩ := (mem_llgrFams l r f).mp hf
   simp only [Bool.and_eq_true, advLlgr_iff]
-  have hp := List.mem_of_find?_eq_some hfind
-  have hpe : p.1 = e.1 := by simpa using List.find?_some hfind
-  exact ⟨⟨lf, firstLlgr_mem _ _ h1, e, he, by rw [← hpe]; exact hpf⟩, ⟨pf, firstLlgr_mem _ _ h2, p, hp, hpf⟩⟩
+  exact ⟨⟨lf, firstLlgr_mem _ _ h1, e, List.mem_of_find?_eq_some hfe, by simpa using List.find?_some hfe⟩,
+    ⟨pf, firstLlgr_mem _ _ h2, p, List.mem_of_find?_eq_some hfp, by simpa using List.find?_some hfp⟩⟩
 
 /-- no family is listed twice by this side (in any LLGR capability) -/
 theorem uniq_of_not_dup (v : List Cap) (hd : Spec.llgrDup v = false) (lf : List (Family × Nat × Nat))
@@ -429,7 +467,7 @@ theorem uniq_of_not_dup (v : List Cap) (hd : Spec.llgrDup v = false) (lf : List 
       exact ⟨_, m1, hcount⟩
     rw [hd] at this; cases this
 
-theorem find_of_uniq (pf : List (Family × Nat × Nat)) (p : Family × Nat × Nat) (hp : p ∈ pf) :
+theorem find_of_mem (pf : List (Family × Nat × Nat)) (p : Family × Nat × Nat) (hp : p ∈ pf) :
     ∃ q, pf.find? (fun x => x.1 = p.1) = some q ∧ q ∈ pf ∧ q.1 = p.1 := by
   cases h : pf.find? (fun x => x.1 = p.1) with
   | none =>
@@ -438,28 +476,19 @@ theorem find_of_uniq (pf : List (Family × Nat × Nat)) (p : Family × Nat × Na
   | some q =>
     exact ⟨q, rfl, List.mem_of_find?_eq_some h, by simpa using List.find?_some h⟩
 
-/-- without duplicate family entries the two ends put the same LLGR families into force -/
-theorem llgr_sym_of_nodup (l r : List Cap) (hl : Spec.llgrDup l = false) (hr : Spec.llgrDup r = false) (f : Family) :
+/-- **both ends put the same LLGR families into force** (whatever the lists look like) -/
+theorem llgr_sym (l r : List Cap) (f : Family) :
     f ∈ Spec.llgrFams (negotiateLlgr l r) → f ∈ Spec.llgrFams (negotiateLlgr r l) := by
   intro hf
-  obtain ⟨lf, pf, h1, h2, e, he, p, hfind, hne, hpf⟩ := (mem_llgrFams l r f).mp hf
-  have hp := List.mem_of_find?_eq_some hfind
-  have hpe : p.1 = e.1 := by simpa using List.find?_some hfind
-  -- the other end walks its own list `pf`: take p; in `lf` it finds the entry of that family
-  obtain ⟨q, hq, hqm, hqf⟩ := find_of_uniq lf e he
-  have huq := uniq_of_not_dup l hl lf (firstLlgr_mem _ _ h1) q hqm e he hqf
-  have hqt : q.2.2 = e.2.2 := by injection huq
-  refine (mem_llgrFams r l f).mpr ⟨pf, lf, h2, h1, p, hp, q, ?_, ?_, ?_⟩
-  · rw [hpe]; exact hq
-  · rw [hqt]
-    by_cases a : p.2.2 > 0 <;> by_cases b : e.2.2 > 0 <;> simp_all <;> omega
-  · rw [hqf, ← hpe]; exact hpf
+  obtain ⟨lf, pf, h1, h2, e, p, hfe, hfp, hne⟩ := (mem_llgrFams l r f).mp hf
+  refine (mem_llgrFams r l f).mpr ⟨pf, lf, h2, h1, p, e, hfp, hfe, ?_⟩
+  by_cases a : p.2.2 > 0 <;> by_cases b : e.2.2 > 0 <;> simp_all <;> omega
 
-theorem llgr_sym_clause (l r : List Cap) (hl : Spec.llgrDup l = false) (hr : Spec.llgrDup r = false) :
+theorem llgr_sym_clause (l r : List Cap) :
     ((negotiateLlgr l r).isSome == (negotiateLlgr r l).isSome
       && Spec.sameSet (Spec.llgrFams (negotiateLlgr l r)) (Spec.llgrFams (negotiateLlgr r l))) = true := by
   have hiff : ∀ f, f ∈ Spec.llgrFams (negotiateLlgr l r) ↔ f ∈ Spec.llgrFams (negotiateLlgr r l) :=
-    fun f => ⟨llgr_sym_of_nodup l r hl hr f, llgr_sym_of_nodup r l hr hl f⟩
+    fun f => ⟨llgr_sym l r f, llgr_sym r l f⟩
   simp only [Bool.and_eq_true, beq_iff_eq, sameSet_iff]
   refine ⟨?_, hiff⟩
   -- in force at all iff some family is in force
@@ -477,12 +506,11 @@ theorem llgr_sym_clause (l r : List Cap) (hl : Spec.llgrDup l = false) (hr : Spe
         · simp [Spec.llgrFams]
         · rename_i hne
           simp only [Option.isSome_some, Spec.llgrFams, true_iff]
-          cases hh : List.filterMap (llgrEntry y) x with
+          cases hh : List.filterMap (llgrEntry y) (firstTuples x []) with
           | nil => simp [hh] at hne
           | cons z _ => exact ⟨z.1, by simp⟩
   rw [Bool.eq_iff_iff, some_iff, some_iff]
   exact ⟨fun ⟨f, h⟩ => ⟨f, (hiff f).mp h⟩, fun ⟨f, h⟩ => ⟨f, (hiff f).mpr h⟩⟩
-
 
 theorem llgrCaps_single : ∀ (v : List Cap) (lf : List (Family × Nat × Nat)), Spec.llgrCaps v ≤ 1 →
     Cap.llgr lf ∈ v → firstLlgr v = some lf
@@ -536,13 +564,14 @@ theorem llgr_missing (l r : List Cap) (all : List Family) :
       obtain ⟨⟨lf, m1, x, hx, hxf, hxt⟩, ⟨pf, m2, y, hy, hyf, hyt⟩⟩ := ha
       have h1 := llgrCaps_single l lf cl m1
       have h2 := llgrCaps_single r pf cr m2
-      obtain ⟨q, hq, hqm, hqf⟩ := find_of_uniq pf y hy
+      obtain ⟨q, hq, hqm, hqf⟩ := find_of_mem pf y hy
       have huq := uniq_of_not_dup r hr pf m2 q hqm y hy hqf
       have hqt : q.2.2 = y.2.2 := by injection huq
-      refine (mem_llgrFams l r f).mpr ⟨lf, pf, h1, h2, x, hx, q, ?_, ?_, ?_⟩
-      · rw [hxf, ← hyf]; exact hq
+      obtain ⟨e, he, _, hef⟩ := find_of_mem lf x hx
+      refine (mem_llgrFams l r f).mpr ⟨lf, pf, h1, h2, e, q, ?_, ?_, ?_⟩
+      · rw [← hxf]; exact he
+      · rw [← hyf]; exact hq
       · rw [hqt]; simp [hyt]; omega
-      · rw [hqf, hyf]
     · simp [ha]
   · have : (!Spec.llgrDup l && !Spec.llgrDup r && decide (Spec.llgrCaps l ≤ 1) && decide (Spec.llgrCaps r ≤ 1)) = false := by
       cases hh : (!Spec.llgrDup l && !Spec.llgrDup r && decide (Spec.llgrCaps l ≤ 1) && decide (Spec.llgrCaps r ≤ 1)) <;> simp_all
@@ -568,11 +597,9 @@ theorem mirror_addpath (l r : List Cap) (f : Family) :
   simp [Bool.and_comm]
 
 /-- **master theorem, negotiation cases.**  The reference checker accepts what the model computes for
-    every pair of capability lists, except that with a family listed twice inside an LLGR capability
-    the two ends may disagree (open finding F16d). -/
+    every pair of capability lists. -/
 theorem checkNeg_model (l r : List Cap) (sm : List (Family × Nat)) :
-    Spec.checkNeg l r sm (runNeg l r sm) = .ok ∨
-    Spec.checkNeg l r sm (runNeg l r sm) = .fail 0 "llgr-not-symmetric-duplicate-entries" := by
+    Spec.checkNeg l r sm (runNeg l r sm) = .ok := by
   have hfl := famsOf_negotiate l r
   have hfr := famsOf_negotiate r l
   have c1 : (Spec.famsOf (negotiate l r) == Spec.famsOf (negotiate r l)) = true := by
@@ -651,22 +678,7 @@ theorem checkNeg_model (l r : List Cap) (sm : List (Family × Nat)) :
   have c16 := gr_missing l r all
   have c20 := llgr_missing l r all
   simp only [Spec.firstFail, c1, c2, c3, c4, c5, c6, c7, c8, c9, c10, c11, c13, c14, c15, c16, c19, c20]
-  by_cases hd : (Spec.llgrDup l || Spec.llgrDup r) = true
-  · by_cases hs : ((negotiateLlgr l r).isSome == (negotiateLlgr r l).isSome
-        && Spec.sameSet (Spec.llgrFams (negotiateLlgr l r)) (Spec.llgrFams (negotiateLlgr r l))) = true
-    · left; simp [Spec.imp, hd, hs, Spec.firstFail]
-    · right
-      have : ((negotiateLlgr l r).isSome == (negotiateLlgr r l).isSome
-        && Spec.sameSet (Spec.llgrFams (negotiateLlgr l r)) (Spec.llgrFams (negotiateLlgr r l))) = false := by
-        cases hh : ((negotiateLlgr l r).isSome == (negotiateLlgr r l).isSome
-          && Spec.sameSet (Spec.llgrFams (negotiateLlgr l r)) (Spec.llgrFams (negotiateLlgr r l))) <;> simp_all
-      simp [Spec.imp, hd, this, Spec.firstFail]
-  · left
-    have hd' : (Spec.llgrDup l || Spec.llgrDup r) = false := by
-      cases hh : (Spec.llgrDup l || Spec.llgrDup r) <;> simp_all
-    have hl : Spec.llgrDup l = false := by cases h1 : Spec.llgrDup l <;> simp_all
-    have hr : Spec.llgrDup r = false := by cases h1 : Spec.llgrDup r <;> simp_all
-    have hs := llgr_sym_clause l r hl hr
-    simp [Spec.imp, hd', hs, Spec.firstFail]
+  have hs := llgr_sym_clause l r
+  simp [Spec.imp, hs, Spec.firstFail]
 
 end Rbgp.Accept.ProofsNeg
